@@ -122,7 +122,7 @@ def _work(args):
 
 
 def run(chk):
-    n = 5000 if chk.tier == 'quick' else 40000
+    n = 5000 if chk.size_tier == 'quick' else 40000
     chk.rule = ('arrays of 1..40 values (heights, time deltas, constants, integers, spans down to 1e-3) with NaNs none / some / '
                 'first / last / all-but-one / all, scaled by shift-and-scale (explicit and data-derived shift), minmax-scale '
                 '(min_range 0..5000) and step-scale (0..4 sorted steps, positive scales; plus ill-formed lists); '
